@@ -225,7 +225,7 @@ class World:
         if not self.active or self.in_action or self.held:
             return
         act = self.next_action("-")
-        self.events.append("L" + lock.name[0] + act)
+        self.events.append("L" + lock.name[0] + ":" + act)
         if act == "T":
             self.run_action("T")
         elif act != "-":
@@ -235,7 +235,7 @@ class World:
         if self.in_action:
             raise Hang("nested:" + cv.name)     # the world's own action would block (never expected)
         act = self.next_action("N")
-        self.events.append("W%s%s%s" % (cv.name, "t" if timeout is not None else "n", act))
+        self.events.append("W%s:%s:%s" % (cv.name, "t" if timeout is not None else "n", act))
         before = cv.notified
         held, cv.lock.depth = cv.lock.depth, 0   # wait() releases the lock completely
         self.held -= held
@@ -439,7 +439,7 @@ def make_llc(role="initiator"):
     """an activated controller outside clf.connect (used by the single-thread exploration)"""
     llc = nfc.llcp.llc.LogicalLinkController(sec=False)
     llc.cfg.update({"send-miu": 248, "recv-lto": 500, "send-wks": 0, "llcp-dpc": 0, "rcvd-ver": (1, 1)})
-    llc.mac = (nfc.dep.Initiator if role == "initiator" else nfc.dep.Target)()
+    llc.mac = None           # terminate(): no NFC-DEP deactivation (type(None) is no MAC class)
     llc.link.ESTABLISHED = True
     return llc
 
